@@ -199,8 +199,15 @@ def _run(pid, prop, tier, seed, replay, nshards, workdir, t0, only_gen):
         print("[%s] skipped (outside stated domain): %s" % (pid, agg["skipped"]))
     if agg["inconclusive"]:
         print("[%s] inconclusive cases: %s" % (pid, agg["inconclusive"]))
+    by_entry = {}
     for key, ent, v in known:
-        print("KNOWN-FINDING: property=%s %s [key=%s, seen %d times this run]" % (pid, ent["what"], key, v["count"]))
+        e = by_entry.setdefault(ent["key"], {"ent": ent, "count": 0, "keys": []})
+        e["count"] += v["count"]
+        e["keys"].append(key)
+    for ek in sorted(by_entry):
+        e = by_entry[ek]
+        print("KNOWN-FINDING: property=%s %s [entry=%s, matched keys=%s, seen %d times this run]" % (
+            pid, e["ent"]["what"], ek, ",".join(e["keys"])[:300], e["count"]))
     for key, v in alarms:
         rdir = os.path.join(HERE, "replays", pid)
         os.makedirs(rdir, exist_ok=True)
